@@ -451,14 +451,21 @@ func runC04(p *core.Prog, r *core.Report) {
 					continue
 				}
 				org := map[string]bool{}
+				hasConst := false
 				for o := range sx.Origins(a) {
-					if !strings.HasPrefix(o, "const") { // a default for the empty path / method is harmless
+					if !strings.HasPrefix(o, "const") { // a default for the empty path is harmless ("" is walked as "/")
 						org[o] = true
+					} else {
+						hasConst = true
 					}
 				}
 				switch {
 				case len(org) == 1 && org["field:URL.Path"]:
 					sawPath = true
+				case len(org) == 1 && org["field:Request.Method"] && hasConst:
+					// the method is the request's own string on every path: a default ("" means GET) would give the empty
+					// method — like any unknown one — the exact-method route instead of the '*' route or no route
+					bad = append(bad, "the method given to the route lookup at "+p.Pos(c.Pos())+" is replaced by a constant on some path")
 				case len(org) == 1 && org["field:Request.Method"]:
 				default:
 					bad = append(bad, "argument "+short(sx.ValPath(a))+" of the route lookup at "+p.Pos(c.Pos())+" derives from "+keys(org))
@@ -1095,7 +1102,30 @@ func runC04(p *core.Prog, r *core.Report) {
 					nErr++
 					var bad ssa.Instruction
 					for _, m := range muts {
-						if m == rc.At || sx.ReachInstr(parse, m, rc.At, sx.Cut{}) {
+						// a child found in the map of the node this very call returned (or of a node below it) proves that the
+						// call created nothing: a node made a moment ago has no children. The "duplicate route" test on the node
+						// the build walk ends in is of that kind; paths through its hit edge are paths without a change
+						proof := sx.Cut{Edges: map[sx.Edge]bool{}}
+						if mc, isCall := m.(*ssa.Call); isCall {
+							for _, l := range lookupsOn(parse, nextKey, methodTags) {
+								ld, ok := l.in.X.(*ssa.UnOp)
+								if !ok {
+									continue
+								}
+								fa, ok := ld.X.(*ssa.FieldAddr)
+								if !ok {
+									continue
+								}
+								for _, lf := range leaves(fa.X) {
+									if lf == ssa.Value(mc) {
+										for e := range l.hit {
+											proof.Edges[e] = true
+										}
+									}
+								}
+							}
+						}
+						if m == rc.At || sx.ReachInstr(parse, m, rc.At, proof) {
 							bad = m
 							break
 						}
